@@ -23,7 +23,7 @@ theorem readSeedAt_bind {β : Type} (i : Nat) (f : Unit → Rd St β) (s : St) (
 body come back unchanged, the rest of the stream is left for the next reader -/
 theorem glwe_compressed_round_trip (b r : Nat) (sd : Bytes) (xv rv : VecZnx) (tail : Bytes) (p : Profile) (mem : Nat)
     (hb : b < 2 ^ 32) (hr : r < 2 ^ 32) (hsd : sd.length = 32) (f0 f1 : Nat) (g0 : SeedGroup)
-    (hw : C18.VecWF xv) (hi : xv.Inv) (hcap : xv.n * xv.cols * xv.maxSize * 8 ≤ rv.data.length) :
+    (hw : Ser.VecWF xv) (hi : xv.Inv) (hcap : xv.n * xv.cols * xv.maxSize * 8 ≤ rv.data.length) :
     ∃ bs, wGLWECompressed p ⟨[b, r], [⟨1, sd⟩], [.vec xv], mem⟩ origin = .ok bs ∧
       rGLWECompressed origin ⟨[f0, f1], [g0], [.vec rv], mem⟩ (bs ++ tail) =
         .ok () ⟨[b, r], [⟨1, sd⟩], [.vec ⟨xv.n, xv.cols, xv.size, xv.maxSize,
